@@ -515,6 +515,10 @@ class Library:
             if not l:
                 raise RaiseEx("IndexError", getattr(node, "lineno", None))
             return l.pop(*a)
+        if name == "popleft":
+            if not l:
+                raise RaiseEx("IndexError", getattr(node, "lineno", None))
+            return l.pop(0)
         if name == "copy":
             return list(l)
         if name == "index":
@@ -533,7 +537,10 @@ class Library:
             key = ex.key(a[0])
             return d.get(key, a[1] if len(a) > 1 else k.get("default"))
         if name in ("copy", "unfreeze"):
-            return dict(d)
+            out = dict(d)
+            if a:
+                out.update(a[0])   # flax FrozenDict.copy(add_or_replace)
+            return out
         if name == "update":
             d.update(a[0] if a else {})
             d.update(k)
